@@ -1,18 +1,23 @@
 """C20 - file, stream and command-line front ends agree with the string API.
 
-(M) TLC model-checks spec/Frontend.tla: over all file sets of <= 3 files, each valid / invalid(n) /
-    version-dependent / unparseable, n in {1,2,255,256,257,300}, the exit rule is total, 0 <=> all
-    good and exact when it fits an exit status; `format` = save(open()) and `schema` = the API's
-    schema for every option combination; on generated documents whose string values draw from every
-    character class every reader returns what loads returns, all writers write the same characters
-    (UTF-8 where bytes are written) and every string value survives save -> open.  Four broken
-    variants of the model (raw exit value, parse failures not counted, universal newlines, latin-1
-    save) must be rejected by TLC in every run.
+(M) TLC model-checks spec/Frontend.tla: over all file sets of <= 3 files, each a MAP file that is
+    valid / invalid(n) / version-dependent / unparseable, n in {1,2,255,256,257,300}, or (sets of
+    <= 2) a partial Mapfile - one LAYER, CLASS, WEB or STYLE root, or two LAYER roots, with and
+    without messages - the exit rule is total, 0 <=> all good and exact when it fits an exit status,
+    and the messages printed are the API's (every root against the schema of its own type);
+    `format` = save(open()) and `schema` = the API's schema for every option combination; on
+    generated documents whose string values draw from every character class every reader returns
+    what loads returns, all writers write the same characters for every layout (indent, spacer,
+    quote, newline, end_comment, align_values, separate_complex_types; UTF-8 where bytes are
+    written) and every string value survives save -> open.  Six broken variants of the model (raw
+    exit value, parse failures not counted, MAP schema for every root, universal newlines, latin-1
+    save, dump mixing up two options) must be rejected by TLC in every run.
 (G) verdict: every configuration / behaviour TLC emits carries the expectation of the spec (exit
     class and exact status, line counts per file, the API call a command line stands for, the
-    character classes of every string value after every call).  The replayer realises it with real
-    files in a directory under /tmp, real `mappyfile` subprocesses (importing the tree under test)
-    and the real open / load / loads / save / dump / dumps, and compares.
+    character classes of every string value after every call, the layout of every written text).
+    The replayer realises it with real files in a directory under /tmp, real `mappyfile`
+    subprocesses (importing the tree under test) and the real open / load / loads / save / dump /
+    dumps (every writer on its own copy of the dictionary), and compares.
 """
 from __future__ import annotations
 import copy
@@ -135,11 +140,12 @@ POOL = {
     "latin1": ["Caf\u00e9 {i}", "n\u00e4\u00efve {i}", "cr\u00e8me {i}", "stra\u00dfe {i}"],
     "latin1-lead": ["\u00e9tat {i}", "\u00c5land {i}", "\u00fc\u00f6 {i}"],
     "cjk": ["{i} \u65e5\u672c\u8a9e x", "k\u4e2d\u6587{i}", "{i}\uac00\ub098\ub2e4z"],
-    "astral": ["a\U0001d518\U0001f600b{i}", "{i}\U00010348z", "x{i}\U0001f1e9\U0001f1eay"],
+    "astral": ["a\U0001d518\U0001f600b{i}", "{i}\U00010348z", "x{i}\U0001f1e9\U0001f1eay", "c{i}\U0002f800\U0001d15ez"],
     "astral-trail": ["{i} ends \U0001f600", "z{i}\U0001f30d\U0001f680"],
     "nbsp": ["a\u00a0b{i}", "{i}\u00a0\u00a0km"],
     "rtl": ["{i} \u05e9\u05dc\u05d5\u05dd \u0645\u0631\u062d\u0628\u0627 z", "{i}\u202e\u05d0\u05d1 \u0627\u0644\u202c x"],
     "combining": ["{i}e\u0301 n\u0303o", "{i}a\u030a\u0323 o\u0308x"],
+    "nfc-unstable": ["10 \u212b\u2126 {i}", "{i}\u1100\u1161\u11a8z", "k{i}\uf900\ufa0e x", "{i} \ufb01\u2460z"],
     "bom": ["a\ufeffb{i}", "{i}\ufeff\ufeffz"],
     "u2028": ["a\u2028b{i}", "p\u2029q{i}", "{i}x\u2028\u2029y"],
     "nel": ["a\u0085b{i}", "{i}\u0085\u0085z"],
@@ -871,7 +877,7 @@ def run(tier):
     walks = [w for w in walks if has_strings(w)][:len(fes)]
     if len(walks) < len(fes) * 0.8:
         raise common.MachineryFailure("only %d generated documents carry string values" % len(walks))
-    vsel = select_validate(val, 72, rng) if quick else val
+    vsel = select_validate(val, 64, rng) if quick else val
     fsel = select_format(fmt, 24, rng) if quick else fmt
     prepare_fixtures(vsel)
     root = tempfile.mkdtemp(prefix="verif_c20_")
